@@ -123,7 +123,7 @@ func (w *world) main() {
 	nCons := 1 + ch("cfg.consumers", 2)
 	kinds := make([]int, nCons)
 	for i := range kinds {
-		kinds[i] = ch("cfg.consumer_kind", 4) // 0 absent until Close, 1 eager, 2 slow, 3 late
+		kinds[i] = ch("cfg.consumer_kind", 5) // 0 absent until Close, 1 eager, 2 slow, 3 late, 4 takes a few values and walks away until Close
 	}
 	w.cfg = map[string]any{"ops": nOps, "stringwriter": withSW, "consumers": kinds}
 
@@ -185,10 +185,22 @@ func (w *world) main() {
 			// a consumer asks for the channel when it starts consuming, which
 			// for the absent and late ones is after the writing has begun
 			status := pw.Status()
+			quota := -1
+			if k == 4 {
+				quota = 1 + ch("walkaway.after", 3)
+			}
 			for {
+				if quota == 0 {
+					simrt.Probe("consumer_walked_away")
+					closeSignal.Recv()
+					quota = -1
+				}
 				v, ok := status.Recv2()
 				if !ok {
 					return
+				}
+				if quota > 0 {
+					quota--
 				}
 				at := simrt.LastOpSeq()
 				simrt.Note("received", fmt.Sprintf("v=%d by=%d at=%d", v, i, at))
